@@ -281,8 +281,13 @@ def closure(R):
                 if mut:
                     R.ob('C17.closure', '%s.%s: no mutable default argument' % (cls.split('.')[-1], name), False,
                          'mutable default argument %s' % U(d), func=fi, node=d)
-        # every field stored by a method is initialised in the __init__ chain
+        # every field stored by a method is initialised in the __init__ chain (or has an immutable class-level default:
+        # a number, a string, None - each instance starts from that value)
         inited = set()
+        for q_ in R.prog.mro(cls):
+            for name_, vals_ in R.prog.classes[q_].attrs.items():
+                if vals_ and all(isinstance(v_, ast.Constant) for v_ in vals_):
+                    inited.add(name_)
         for fi in _init_chain(R, cls):
             for s in own_nodes(fi.node):
                 if isinstance(s, ast.Assign):
